@@ -13,10 +13,10 @@ RULE = ("random binary/integer images of 1-4 D (incl. strongly elongated 1xn, nx
         "model against the extracted min-plus specification. gvoronoi: label of a nearest labelled pixel (ties: any) and equal to "
         "the model. thorough: all binary images <=3x4 and <=2x2x3. Non-trivial: image has both foreground and background")
 NOT_PROVED = ["the tie of the hand-written Coq model (Model/Distance.v: parabola stack with cross-multiplied intersections, forward "
-              "sweep, one pass per axis) to _distance.cpp / distance.py is the correspondence check; the model itself is proved exact "
-              "for all inputs (dt1d_spec, distance_exact)",
+              "sweep, one pass per axis, origin tracking) to _distance.cpp / distance.py / segmentation.py is the correspondence check; "
+              "the model itself is proved exact for all inputs (dt1d_spec, distance_exact, gvoronoi_nearest_label)",
               "the final sqrt of metric='euclidean' is numpy's and is compared with the correctly rounded root",
-              "gvoronoi tie-breaking follows the model; nearest-label is judged by the definition on every case"]
+              "gvoronoi: WHICH of several equidistant labels is chosen follows the model (compared exactly); the theorem says a nearest one"]
 BUDGET_S = {"quick": 110, "thorough": 1200}
 
 _CFG = None
